@@ -11,7 +11,7 @@ from . import c01, c11
 from .toposort_rules import check_toposort
 
 PROP = "C13"
-FLOORS = {"C13.R1": 7, "C13.R2": 10, "C13.R3": 4, "C13.R4": 8, "C13.R5": 3, "C13.R6": 12}
+FLOORS = {"C13.R1": 7, "C13.R2": 10, "C13.R3": 4, "C13.R4": 8, "C13.R5": 3, "C13.R6": 12, "C13.R8": 1}
 META = {
     "explanation": "Template of the compiler: mk_fun takes ONE task list from find_tasks over all argument refs together (the same "
                    "scheduler as assignment: trigger closure + reverse-post-order DFS, re-checked here), emits the header, then one "
@@ -185,3 +185,8 @@ def check(col: Collector):
         shared(col, "C13.R5", [c01._set_value_protocol],
                select=lambda o: construct_tag(o) in ("write-on-every-path", "propagate-after-write", "trigger-set", "written-value"),
                why="the generated function writes each argument and runs the tasks unconditionally; set_value must do the same")
+    # round 7: the generated text `(lhs OP rhs)` is evaluated by Python; the manager evaluates the node's _get_value
+    with col.rule():
+        shared(col, "C13.R8", [c04._binary, c04._unary],
+               why="a node whose _get_value is not exactly Python's operator on its evaluated operands (a short cut for a zero factor ..) "
+                   "computes something else than the printed expression the generated function executes")
